@@ -68,6 +68,23 @@ void splinetable<Alloc>::fit(const ::ndsparse& data,
 		                       +std::to_string(penaltyOrder.size())
 		                       +") should be 1 or the number of spline dimensions ("
 		                       +std::to_string(data.ndim)+")");
+	for(uint32_t i=0; i<data.ndim; i++){
+		if(coords[i].size()<data.ranges[i])
+			throw std::logic_error("Coordinate vector for dimension "+std::to_string(i)
+			                       +" has "+std::to_string(coords[i].size())
+			                       +" entries, fewer than the range of coordinate indices ("
+			                       +std::to_string(data.ranges[i])+")");
+		if(knots[i].size()<2*size_t(splineOrder[i])+2)
+			throw std::logic_error("Knot vector for dimension "+std::to_string(i)+" has "
+			                       +std::to_string(knots[i].size())+" entries, but a spline of order "
+			                       +std::to_string(splineOrder[i])+" needs at least "
+			                       +std::to_string(2*size_t(splineOrder[i])+2));
+		uint32_t porder=(penaltyOrder.size()>1?penaltyOrder[i]:penaltyOrder[0]);
+		if(porder>splineOrder[i])
+			throw std::logic_error("Penalty order ("+std::to_string(porder)
+			                       +") for dimension "+std::to_string(i)
+			                       +" exceeds the spline order ("+std::to_string(splineOrder[i])+")");
+	}
 	if(monodim!=no_monodim && monodim>=data.ndim)
 		throw std::logic_error("Requested monotonic dimension ("
 		                       +std::to_string(monodim)
